@@ -491,8 +491,8 @@ func (g G) Block(level int, o SchemaOpts) m.BlockM {
 		Mods:       g.modsList(),
 		Desc:       g.desc(),
 	}
-	if g.Chance(30) {
-		bl.Min = uint64(g.Int(0, 2))
+	if g.Chance(35) {
+		bl.Min = uint64(g.Int(0, 3))
 	}
 	if g.Chance(30) {
 		bl.Max = uint64(g.Int(0, 2))
